@@ -135,6 +135,7 @@ pub fn dispatch(kind: &str, v: &Value) -> Option<Outcome> {
         "c11" => serde_json::from_value::<Case11>(v.clone()).ok().map(|c| c.run()),
         "history" => serde_json::from_value::<HistCase>(v.clone()).ok().map(|c| c.run()),
         "c11-chain" => serde_json::from_value::<ChainCase>(v.clone()).ok().map(|c| c.run()),
+        "fan-in" => serde_json::from_value::<crate::scale::FanInCase>(v.clone()).ok().map(|c| c.run()),
         _ => None,
     }
 }
@@ -162,6 +163,10 @@ pub fn campaigns(ctx: &Ctx) -> Stats {
                 let name = format!("all-dags-{}-leaves-{}-nodes", leaves, n);
                 st.merge(ctx.run_indexed(&name, cnt * 2, Some(&format!("all {} DAGs with {} leaf/leaves and {} custom-operation nodes (each node takes one operand or an ordered pair among all earlier nodes), root = last node, backward(None) and backward(seed)", cnt, leaves, n)), |i| dag(leaves, n, i / 2, (i % 2) as u8).map(|h| Case11::H(HistCase { oracle: "c11".into(), hist: h }))));
             }
+        }
+        {
+            let fan = crate::scale::fan_in_cases("c11", t == Tier::Thorough);
+            st.merge(ctx.run_indexed("one-node-consumed-up-to-70001-times", fan.len() as u64, None, |i| Some(fan[i as usize].clone())));
         }
         let (len, total) = t.pick((14usize, 40000u64), (40, 600000));
         for (name, exact) in [("mixed-custom-and-builtin-programs-exact", true), ("mixed-custom-and-builtin-programs", false)] {
